@@ -48,6 +48,8 @@ where
     A: Clone + Send + Sync,
 {
     let parallel = graph.number_of_nodes() > 20 && rayon::current_num_threads() > 1;
+    #[cfg(feature = "verif_hooks")]
+    let parallel = crate::verif_hooks::parallel_override().unwrap_or(parallel);
     let mut betweenness = vec![0.0; graph.number_of_nodes()];
     match parallel {
         true => {
